@@ -203,6 +203,7 @@ __gmp_randget_mt (gmp_randstate_t rstate, mp_ptr dest, mpir_ui nbits)
     {					\
       if (*pmti >= N)			\
 	{				\
+	  MPIR_VERIF_HIT (MPIR_VERIF_MT_REFILL);  \
 	  __gmp_mt_recalc_buffer (mt);  \
 	  *pmti = 0;			\
 	}				\
